@@ -81,6 +81,10 @@ struct Loop {
 impl Loop {
     fn new(from: i32, to: i32, step: i32, delay: i32, command: char, parsed_string: String, loop_parameters: Vec<Vec<String>>) -> EngineResult<Self> {
         let command = IgsCommands::from_char(command)?;
+        // the loop counter has to move: with step 0 the loop would never end
+        if step <= 0 {
+            return Err(anyhow::anyhow!("Loop step must be positive, was {step}"));
+        }
         Ok(Self {
             i: from,
             from,
